@@ -36,6 +36,7 @@ import (
 //   stats   node.Group.ReportResults on a synthetic run record (panics caught)
 //   track   telemetry.ProgressTelemetry under a scripted schedule, virtual time
 //   sim     the whole simulator with real libocr in a child process (c20_sim_test.go)
+//   churn   a node's block source with subscribers coming and going while blocks flow (c20_churn_test.go)
 
 type c20Upkeep struct {
 	Expected   bool     `json:"expected"`
@@ -95,6 +96,8 @@ type c20Input struct {
 	Rounds    int `json:"rounds,omitempty"`
 	K         int `json:"k,omitempty"`
 	PerReport int `json:"per_report,omitempty"`
+	// churn (subscribers of a node's block source coming and going while blocks flow)
+	Churn *c20ChurnIn `json:"churn,omitempty"`
 }
 
 // ---------------------------------------------------------------- plan
@@ -665,6 +668,21 @@ func c20GenRunnablePlan(r *Rng, small bool) config.SimulationPlan {
 			p.GenerateUpkeeps[i].Expected = config.AllExpected
 		}
 	}
+	// a plan may re-configure the network any number of times: each further `ocr3config` event makes libocr close
+	// the running plugin instances and build new ones while the chain goes on
+	if len(p.ConfigEvents) > 0 && r.Chance(20) {
+		used := map[int64]bool{genesis + 1: true}
+		for i, n := 0, r.Range(1, 2); i < n; i++ {
+			at := genesis + int64(r.Range(2, dur-2))
+			if used[at] {
+				continue
+			}
+			used[at] = true
+			ev := c20ConfigEvent(at, f)
+			ev.Event.Comment = "ocr config change"
+			p.ConfigEvents = append(p.ConfigEvents, ev)
+		}
+	}
 	return p
 }
 
@@ -932,6 +950,8 @@ func c20Run(t *testing.T, in c20Input, simExe string) any {
 		return c20RunPipelines([]c20PipelineIn{*in.Pipeline}, simExe, in.Race)[0]
 	case "transmit":
 		return c20RunTransmit(in, simExe, in.Race)
+	case "churn":
+		return c20RunChurn(in, simExe, in.Race)
 	case "sim":
 		plan, err := c20CanonToPlan(*in.Plan)
 		if err != nil {
@@ -1179,6 +1199,27 @@ func TestC20(t *testing.T) {
 		}
 		sims = append(sims, simCase{in, self})
 	}
+	// plans with several config events: the plugin instances of every node are closed and replaced mid-run
+	multiFrom := len(sims)
+	for _, mc := range []struct {
+		name string
+		plan config.SimulationPlan
+		real bool
+	}{
+		{"two-configs", c20MultiConfigPlan(r, 2), false},
+		{"three-configs", c20MultiConfigPlan(r, 3), false},
+		{"early-reconfig", c20EarlyReconfigPlan(r), false},
+		{"reconfig-fast-chain-realtime", c20MultiConfigFastPlan(r), true},
+	} {
+		in, err := c20PlanInput("sim", mc.name, mc.plan, true)
+		if err != nil {
+			t.Fatal(err)
+		}
+		in.Realtime = mc.real
+		sims = append(sims, simCase{in, self})
+		em.Hit("sim.config-events>1")
+	}
+	multiTo := len(sims)
 	nGen := tierN(0, 29) // with the three shipped plans, the corpus witness, the negative and the late-transmit plan and (thorough) three race-build runs: 8 / 40 simulations
 	for i := 0; i < nGen; i++ {
 		p := c20GenRunnablePlan(r, true)
@@ -1192,7 +1233,7 @@ func TestC20(t *testing.T) {
 	if thorough() {
 		if raceExe = c20RaceExeFor(t); raceExe != "" {
 			defer os.Remove(raceExe)
-			for _, k := range []int{0, 2, negIdx} { // only_log_trigger.json, simplan_fast_check.json and the failing negative plan under the race detector
+			for _, k := range []int{0, 2, negIdx, multiFrom, multiTo - 2} { // only_log_trigger.json, simplan_fast_check.json, the failing negative plan and two re-configured runs under the race detector
 				in := sims[k].in
 				in.Race = true
 				sims = append(sims, simCase{in, raceExe})
@@ -1212,6 +1253,26 @@ func TestC20(t *testing.T) {
 		if raceExe != "" {
 			col.Race, col.Rounds, col.Reads = true, 3000, 300
 			sims = append(sims, simCase{col, raceExe})
+		}
+	}
+	{
+		// a node's block source with subscribers (plugin instances) coming and going while blocks flow
+		cad := []int{150, 200, 300}[r.Intn(3)]
+		churn := []c20ChurnIn{
+			{Mode: "stores", Workers: 16, Instances: tierN(1500, 6000), CadenceUs: 1000},
+			{Mode: "stores", Workers: r.Range(6, 10), Instances: tierN(300, 3000), CadenceUs: cad, Slow: r.Range(1, 3), PauseUs: cad * 3 / 2},
+			{Mode: "raw", Workers: r.Range(6, 10), Instances: tierN(300, 3000), CadenceUs: cad, Slow: r.Range(1, 3), PauseUs: cad * 3 / 2},
+			{Mode: "raw", Workers: 16, Instances: tierN(500, 4000), CadenceUs: 500},
+		}
+		for i := range churn {
+			sims = append(sims, simCase{c20Input{Kind: "churn", Churn: &churn[i]}, self})
+		}
+		if raceExe != "" {
+			for _, k := range []int{0, 2} {
+				c := churn[k]
+				c.Instances = 150
+				sims = append(sims, simCase{c20Input{Kind: "churn", Churn: &c, Race: true}, raceExe})
+			}
 		}
 	}
 	for _, part := range []string{"ocr3", "upkeep"} {
